@@ -15,9 +15,10 @@ import DSymVerif.Proofs.Backtrack
 import DSymVerif.Proofs.LowIndex
 import DSymVerif.Proofs.LowIndexSound
 import DSymVerif.Proofs.Rebase
+import DSymVerif.Proofs.LowIndexValid
 
 namespace DSymVerif.C12
-open DSymVerif DSymVerif.Cosets DSymVerif.LowIndexP DSymVerif.SpecC11 DSymVerif.SpecC12 DSymVerif.RebaseP
+open DSymVerif DSymVerif.Cosets DSymVerif.LowIndexP DSymVerif.SpecC11 DSymVerif.SpecC12 DSymVerif.RebaseP DSymVerif.CosetInvP
 
 /-- ✔ `backtrack_preorder` (generic, shared with C06/C07): for a search tree of finite
     height the model of `BackTrackIterator`, run with at least as much fuel as the tree has
@@ -112,6 +113,32 @@ theorem search_states_inverse_consistent (nrGens : Nat) (rels : List (List Int))
 theorem extract_complete (t t' : Table) (h : btExtract (.ok t) = some (.ok t')) :
     t.compact = .ok t' ∧ ∀ k, k < t.len → ∀ g ∈ t.allGens, ∃ d, t.get k g = .ok (some d) :=
   btExtract_complete h
+
+/-- ✔ **`extract_valid`**: for relators over the letters `±1..±n` that are empty or cyclically
+    reduced (`FWP.CR`), every table yielded by the model of `coset_tables`, run with enough
+    fuel to exhaust the search tree, passes the Boolean Spec `validTable rels []` — every
+    entry defined and in range, inverse letters inverse, every relator closing at every row,
+    every row reached from row 0 (transitive) — and has at most `max k 1` rows.
+    (`viewTab` is the driver's `tabOfLists`; the search-state invariant behind it is
+    `CosetInvP.SInv`, the deduction-queue invariant `CosetInvP.derivedLoop_qinv`.) -/
+theorem extract_valid (n : Nat) (rels : List (List Int)) (k fuel : Nat)
+    (hcr : ∀ ρ ∈ rels, ρ = [] ∨ FWP.CR ρ) (hlet : ∀ w ∈ rels, ∀ x ∈ w, x ∈ allGensOf n)
+    (hf : (BT.dfs (btProblem n (expandedRelatorSet rels) k) (height k) (.ok (Table.new n))).length ≤ fuel) :
+    ∀ x ∈ cosetTables n rels k fuel, ∀ t', x = .ok t' →
+      ∃ v, t'.view = .ok v ∧ validTable (viewTab v) n rels [] = true ∧ (viewTab v).size ≤ max k 1 :=
+  cosetTables_valid n rels k fuel hcr hlet hf
+
+/-- ✔ the deduction queue of `derived_table`: if every completely defined relator path closes
+    in the parent (`QInv t [] rels`), the same holds in every derived table, because a
+    two-sided scan from a row `h` of the rotation `a ++ b` detects every non-closing path
+    `r —b→ h —a→ r' ≠ r` through `h`. -/
+theorem derived_table_relators_close (maxRows n : Nat) (rels R : List (List Int))
+    (hrot : RotClosed rels R) (hwr : ∀ w ∈ rels, ∀ x ∈ w, x ∈ allGensOf n)
+    (hwR : ∀ u ∈ R, ∀ x ∈ u, x ∈ allGensOf n) (t t' : Table) (s : SInv maxRows n rels t)
+    (frm dst : Nat) (g : Int) (hg : g ∈ t.allGens) (hf : frm < t.len)
+    (hd : dst < t.len ∨ (dst = t.len ∧ frm < dst)) (hdm : dst < maxRows)
+    (h : derivedTable t R frm dst g = .ok (some t')) : SInv maxRows n rels t' :=
+  derivedTable_sinv hrot hwr hwR s hg hf hd hdm h
 
 /-- ○ `rebase_min_invariant`: the Spec's `canonicalForm` (minimum over all base points of
     the BFS-renumbered table) is a complete invariant of a table up to isomorphism
